@@ -1,21 +1,12 @@
 (* The seconds of a time of day survive rendering: for every second below 60 and every number of microseconds below 10^6
    the rendered text is read back (fixed_parse, daytime) as exactly that many seconds and microseconds.  The digits-level
-   fact is decided for all 10^6 values of the microseconds by evaluation (a finite domain, swept completely as
-   1000 x 1000), the whole part by the theorem about fixed_parse (LitProofs.fixed_parse_spec). *)
-From Coq Require Import List NArith Bool Lia Arith.
-From Verif Require Import Base.Text Model.Literals Model.TimeRender Proofs.LitProofs Proofs.TimeSweep.
+   fact is Proofs/FractionDigits.v (general, no enumeration), the whole part the theorem about fixed_parse
+   (LitProofs.fixed_parse_spec). *)
+From Coq Require Import List ZArith NArith Bool Lia Arith ZifyBool ZifyN.
+From Verif Require Import Base.Text Model.Literals Model.TimeRender Proofs.LitProofs Proofs.FractionDigits Proofs.DurRenderProofs.
 Import ListNotations.
 Open Scope N_scope.
-
-Lemma frac_ok_all micro : micro < 1000000 -> frac_ok micro = true.
-Proof.
-  intro H. pose proof (all_below_spec 1000 _ sweep (micro / 1000)) as A. cbv beta in A.
-  assert (H1 : micro / 1000 < N.of_nat 1000) by (change (N.of_nat 1000) with 1000; apply N.div_lt_upper_bound; lia).
-  specialize (A H1). pose proof (all_below_spec 1000 _ A (micro mod 1000)) as Bq. cbv beta in Bq.
-  assert (H2 : micro mod 1000 < N.of_nat 1000) by (change (N.of_nat 1000) with 1000; apply N.mod_lt; lia).
-  specialize (Bq H2). replace (micro / 1000 * 1000 + micro mod 1000) with micro in Bq; [exact Bq|].
-  rewrite N.mul_comm. apply N.div_mod. lia.
-Qed.
+Ltac Zify.zify_post_hook ::= Z.div_mod_to_equations.
 
 Lemma two_digits_ok sec : Forall (fun x => x < 10) (two_digits sec).
 Proof. unfold two_digits. repeat constructor; apply N.mod_lt; lia. Qed.
@@ -30,12 +21,7 @@ Qed.
 Theorem seconds_text_read sec micro : sec < 100 -> micro < 1000000 ->
   fixed_parse (seconds_text sec micro) = Some (sec, micro * 1000000000).
 Proof.
-  intros Hs Hm. pose proof (frac_ok_all micro Hm) as F. unfold frac_ok in F.
-  repeat (apply andb_prop in F; destruct F as [F ?]).
-  match goal with H : (_ =? _) = true |- _ => apply N.eqb_eq in H; rename H into Hval end.
-  match goal with H : Nat.leb (length _) 6 = true |- _ => apply Nat.leb_le in H; rename H into Hlen end.
-  assert (Hd : Forall (fun x => x < 10) (fraction_of_second micro)).
-  { apply Forall_forall. intros x Hx. pose proof (proj1 (forallb_forall _ _) F x Hx) as Q. unfold digit_ok in Q. apply N.ltb_lt. exact Q. }
+  intros Hs Hm. destruct (fraction_facts micro Hm) as (Hd & [_ Hlen] & Hval).
   unfold seconds_text. change (map char_of_digit) with digits_text.
   rewrite (fixed_parse_spec (two_digits sec) (fraction_of_second micro) (two_digits_ok sec) Hd) by discriminate.
   destruct (Nat.ltb 15 (length (fraction_of_second micro))) eqn:E; [apply Nat.ltb_lt in E; lia|].
@@ -67,28 +53,24 @@ Example old_text_was_wrong :
 Proof. vm_compute. reflexivity. Qed.
 
 (* ---- dates ---- *)
-Definition reads (f : N -> text) (v : N) : bool := match integer_new (f v) with Some x => x =? v | None => false end.
-
-Lemma year_sweep : all_below 100 (fun hi => all_below 100 (fun lo => reads year_text (hi * 100 + lo))) = true.
-Proof. vm_cast_no_check (eq_refl true). Qed.
-Lemma two_sweep : all_below 100 (reads two_text) = true.
-Proof. vm_cast_no_check (eq_refl true). Qed.
-
-Lemma reads_spec f v : reads f v = true -> integer_new (f v) = Some v.
-Proof. unfold reads. destruct (integer_new (f v)) as [x|]; [|discriminate]. intro H. apply N.eqb_eq in H. congruence. Qed.
+Lemma digits4_value y : y < 10000 -> horner 10 (digits4 y) = y.
+Proof. intro H. unfold digits4, horner, horner_from. cbn [fold_left]. lia. Qed.
+Lemma digits4_digits y : Forall (fun x => x < 10) (digits4 y).
+Proof. unfold digits4. repeat constructor; apply N.mod_lt; lia. Qed.
 
 Lemma year_read y : y < 10000 -> integer_new (year_text y) = Some y.
 Proof.
-  intro H. apply reads_spec. pose proof (all_below_spec 100 _ year_sweep (y / 100)) as A. cbv beta in A.
-  assert (H1 : y / 100 < N.of_nat 100) by (change (N.of_nat 100) with 100; apply N.div_lt_upper_bound; lia).
-  specialize (A H1). pose proof (all_below_spec 100 _ A (y mod 100)) as Bq. cbv beta in Bq.
-  assert (H2 : y mod 100 < N.of_nat 100) by (change (N.of_nat 100) with 100; apply N.mod_lt; lia).
-  specialize (Bq H2). replace (y / 100 * 100 + y mod 100) with y in Bq; [exact Bq|].
-  rewrite N.mul_comm. apply N.div_mod. lia.
+  intro H. unfold year_text. change (map char_of_digit) with digits_text.
+  rewrite (integer_new_spec (digits4 y) _ (digits_spelled _ (digits4_digits y))) by discriminate.
+  rewrite (digits4_value y H). assert (E : y <? two128 = true) by (apply N.ltb_lt; unfold two128; lia). rewrite E. reflexivity.
 Qed.
 
 Lemma two_read v : v < 100 -> integer_new (two_text v) = Some v.
-Proof. intro H. apply reads_spec. apply (all_below_spec 100 _ two_sweep v). change (N.of_nat 100) with 100. exact H. Qed.
+Proof.
+  intro H. unfold two_text. change (map char_of_digit) with digits_text.
+  rewrite (integer_new_spec (two_digits v) _ (digits_spelled _ (two_digits_ok v))) by discriminate.
+  rewrite (two_digits_value v H). assert (E : v <? two128 = true) by (apply N.ltb_lt; unfold two128; lia). rewrite E. reflexivity.
+Qed.
 
 Lemma days_in_month_le y m : days_in_month y m <= 31.
 Proof.
